@@ -81,6 +81,13 @@ def kexinit_edits(payload):
         edits.append(('list%d-prepend' % k, with_list([b'x@example.com'] + l)))
     edits.append(('first-kex-follows', build_kexinit(head, lists, bytes([tail[0] ^ 1]) + tail[1:])))
     edits.append(('reserved', build_kexinit(head, lists, tail[:-1] + bytes([tail[-1] ^ 1]))))
+    # bytes behind the last field (an on-path party can also get them by lowering the cleartext padding length) and
+    # a message cut short: what is hashed must be what was sent
+    edits.append(('append-zero', payload + b'\0'))
+    edits.append(('append-4', payload + b'\0\0\0\1'))
+    edits.append(('append-list', payload + struct.pack('>I', 4) + b'none'))
+    edits.append(('truncate-last', payload[:-1]))
+    edits.append(('truncate-reserved', payload[:-4]))
     return edits
 
 
